@@ -87,6 +87,60 @@ func protoAt(i, param int, bits []bool) R {
 	}
 }
 
+// bytesAt runs the byte-oriented parameterised entry point of test i (1-based) with parameter param.
+func bytesAt(i, param int, data []byte) R {
+	switch i {
+	case 1:
+		p, q := randomness.MonoBitFrequencyTestBytes(data)
+		return rr(p, q, 0, 0)
+	case 2:
+		if param == 0 {
+			return fromResult(randomness.FrequencyWithinBlock(data))
+		}
+		p, q := randomness.FrequencyWithinBlockTestBytes(data, param)
+		return rr(p, q, 0, 0)
+	case 3:
+		p, q := randomness.PokerTestBytes(data, param)
+		return rr(p, q, 0, 0)
+	case 4:
+		p1, p2, q1, q2 := randomness.OverlappingTemplateMatchingTestBytes(data, param)
+		return rr(p1, q1, p2, q2)
+	case 5:
+		p, q := randomness.RunsTestBytes(data)
+		return rr(p, q, 0, 0)
+	case 6:
+		p, q := randomness.RunsDistributionTestBytes(data)
+		return rr(p, q, 0, 0)
+	case 7:
+		p, q := randomness.LongestRunOfOnesInABlockTestBytes(data, param == 1)
+		return rr(p, q, 0, 0)
+	case 8:
+		p, q := randomness.BinaryDerivativeTestBytes(data, param)
+		return rr(p, q, 0, 0)
+	case 9:
+		p, q := randomness.AutocorrelationTestBytes(data, param)
+		return rr(p, q, 0, 0)
+	case 10:
+		p, q := randomness.MatrixRankTestBytes(data, param, param)
+		return rr(p, q, 0, 0)
+	case 11:
+		p, q := randomness.CumulativeTestBytes(data, param == 1)
+		return rr(p, q, 0, 0)
+	case 12:
+		p, q := randomness.ApproximateEntropyTestBytes(data, param)
+		return rr(p, q, 0, 0)
+	case 13:
+		p, q := randomness.LinearComplexityTestBytes(data, param)
+		return rr(p, q, 0, 0)
+	case 14:
+		p, q := randomness.MaurerUniversalTestBytes(data)
+		return rr(p, q, 0, 0)
+	default:
+		p, q := randomness.DiscreteFourierTransformTestBytes(data)
+		return rr(p, q, 0, 0)
+	}
+}
+
 var testIDs = []string{"mono", "block", "poker", "serial", "runs", "rundist", "longest", "bd", "ac", "rank", "cusum", "apen", "lc", "maurer", "dft"}
 var defaults = []int{0, 0, 8, 5, 0, 0, 1, 7, 16, 32, 1, 5, 500, 0, 0}
 
@@ -95,6 +149,33 @@ var neighbours = map[int][]int{3: {2, 4}, 4: {2, 3, 7}, 7: {0}, 8: {3, 15}, 9: {
 
 func same(a, b R) bool {
 	return a["Pb"] == b["Pb"] && a["Qb"] == b["Qb"] && a["P2b"] == b["P2b"] && a["Q2b"] == b["Q2b"]
+}
+
+// ownBits is the driver's transcription of BitSeq!BytesToBits (most significant bit first); the bytes event logs it on a
+// small array so that TLC ties it to the TLA+ definition.
+func ownBits(data []byte) []bool {
+	out := make([]bool, 0, 8*len(data))
+	for _, b := range data {
+		for k := 7; k >= 0; k-- {
+			out = append(out, (b>>uint(k))&1 == 1)
+		}
+	}
+	return out
+}
+
+func firstDiff(a, b []bool) int {
+	if len(a) != len(b) {
+		if len(a) < len(b) {
+			return len(a)
+		}
+		return len(b)
+	}
+	for i := range a {
+		if a[i] != b[i] {
+			return i
+		}
+	}
+	return -1
 }
 
 func genBytes(mode string, n int, seed int64) []byte {
@@ -111,6 +192,7 @@ func registryCmd(job []byte, out *Out) error {
 			NBytes int    `json:"nbytes"`
 			Seed   int64  `json:"seed"`
 			Embed  []int  `json:"embed"`
+			Light  bool   `json:"light"` // large inputs: only the linear-time tests, byte-oriented runner vs bit-oriented default
 		} `json:"inputs"`
 	}
 	if err := json.Unmarshal(job, &j); err != nil {
@@ -132,7 +214,39 @@ func registryCmd(job []byte, out *Out) error {
 				}
 			}
 		}
-		ev := R{"ev": "reg", "id": in.ID, "nbytes": len(data), "mode": in.Mode, "seed": in.Seed, "panic": ""}
+		if in.Light {
+			ev := R{"ev": "light", "id": in.ID, "nbytes": len(data), "mode": in.Mode, "seed": in.Seed, "panic": "", "pairs": []R{}, "expand": -2, "readgroup": -2, "mutated": false}
+			func() {
+				defer func() {
+					if p := recover(); p != nil {
+						ev["panic"] = fmt.Sprint(p)
+					}
+				}()
+				snap := append([]byte(nil), data...)
+				own := ownBits(data)
+				ev["expand"] = firstDiff(randomness.B2bitArr(data), own)
+				pairs := []R{}
+				for _, i := range []int{1, 2, 3, 5, 6, 7, 8, 9, 11} {
+					a := fromResult(randomness.TestMethodArr[i-1].Runner(data))
+					d := protoAt(i, defaults[i-1], own)
+					pairs = append(pairs, R{"i": i, "runner": a, "def": d})
+				}
+				ev["pairs"] = pairs
+				fn := filepath.Join(tmpdir, fmt.Sprintf("in%d.bin", in.ID))
+				if err := os.WriteFile(fn, data, 0600); err == nil {
+					ev["readgroup"] = firstDiff(randomness.ReadGroup(fn), own)
+					os.Remove(fn)
+				}
+				for i := range data {
+					if data[i] != snap[i] {
+						ev["mutated"] = true
+					}
+				}
+			}()
+			out.Emit(ev)
+			continue
+		}
+		ev := R{"ev": "reg", "id": in.ID, "nbytes": len(data), "mode": in.Mode, "seed": in.Seed, "panic": "", "expand": -2}
 		func() {
 			defer func() {
 				if p := recover(); p != nil {
@@ -140,7 +254,9 @@ func registryCmd(job []byte, out *Out) error {
 				}
 			}()
 			snap := append([]byte(nil), data...)
-			bits := randomness.B2bitArr(data)
+			// the bit-oriented entry points get the driver's own expansion; the library's must equal it
+			bits := ownBits(data)
+			ev["expand"] = firstDiff(randomness.B2bitArr(data), bits)
 			runners := make([]R, 15)
 			for i, it := range randomness.TestMethodArr {
 				if i < 15 {
@@ -269,7 +385,7 @@ func resultsCmd(job []byte, out *Out) error {
 		SerialHunt int   `json:"serialHunt"`
 		PassHunt   int   `json:"passHunt"`
 		HuntSeed   int64 `json:"huntSeed"`
-		Inputs []struct {
+		Inputs     []struct {
 			ID   int    `json:"id"`
 			Mode string `json:"mode"`
 			N    int    `json:"n"`
@@ -434,7 +550,14 @@ func byteTableCmd(job []byte, out *Out) error {
 			ai2[i] = 1
 		}
 	}
-	out.Emit(R{"ev": "bytes", "rows": rows, "back": back, "arr": ai, "arrbytes": []int{0x80, 0x01, 0xA5, 0x00, 0xFF}, "rows2": rows2, "arr2": ai2})
+	pa := ownBits([]byte{0x80, 0x01, 0xA5, 0x00, 0xFF})
+	pai := make([]int, len(pa))
+	for i, v := range pa {
+		if v {
+			pai[i] = 1
+		}
+	}
+	out.Emit(R{"ev": "bytes", "proxyarr": pai, "rows": rows, "back": back, "arr": ai, "arrbytes": []int{0x80, 0x01, 0xA5, 0x00, 0xFF}, "rows2": rows2, "arr2": ai2})
 	return nil
 }
 
